@@ -2437,6 +2437,10 @@ func totalMirrorToD(c *Ctx, r *Rng, emit func(dec, how, src string, b []byte, ex
 		"tmcmap12.decode":  {"cmap", sub(3, 10)},
 		"tmcmapdir.f0":     {"cmap", sub(1, 0)},
 		"tmcmapdir.f6":     {"cmap", sub(3, 1)},
+		"tmgsubsub.read":   {"gsub", totalWrapSubtable(0)},
+		"tmseqctx.read":    {"gsub", totalWrapSubtable(5)},
+		"tmchainctx.read":  {"gsub", totalWrapSubtable(6)},
+		"tmgpossub.read":   {"gpos", totalWrapSubtable(0)},
 		"tmmetrics.hmtx": {"hmtx", func(f Fields) ([]byte, string, bool) {
 			if f["bytes"] == "-" {
 				return nil, "", false
@@ -2658,6 +2662,27 @@ func totalFontVariants(file []byte) []totalFontVariant {
 		}
 	}
 	return out
+}
+
+// totalWrapSubtable: a GSUB/GPOS subtable of a V line (pos=0) wrapped into a whole table with one lookup
+// of the line's type (field `type`, or the given fixed type).
+func totalWrapSubtable(fixed int) func(f Fields) ([]byte, string, bool) {
+	return func(f Fields) ([]byte, string, bool) {
+		if f["bytes"] == "" || (f["pos"] != "" && f["pos"] != "0") {
+			return nil, "", false
+		}
+		tp := fixed
+		if tp == 0 {
+			if f["type"] == "" {
+				return nil, "", false
+			}
+			tp = f.Int("type")
+		}
+		if tp < 1 || tp > 9 {
+			return nil, "", false
+		}
+		return totalGtabWrap(tp, f.Hex("bytes")), "", true
+	}
 }
 
 // ---------------------------------------------------------------- generator
